@@ -173,8 +173,12 @@ class C02Episode(Episode):
         if quits:
             # zombies of earlier surplus kills vanish with the daemon process
             # (re-parented to init); only live workers can outlive a quit
+            # (workers started by a start-class request that was accepted
+            # after the quit are C08's business, not a survivor of the stop)
+            qseq = min(r.disp_seq for r in quits)
             left = [(p.pid, p.state) for p in k.procs.values()
                     if p.orig_parent == me and p.alive
+                    and p.spawn_seq < qseq
                     and p.marker not in self.nostop_markers]
             if left:
                 self.viol('survivor_after_quit', 'the daemon has quit; '
